@@ -1,0 +1,23 @@
+//go:build verif
+
+package check
+
+import (
+	"github.com/foxcpp/maddy/framework/dns"
+	"github.com/foxcpp/maddy/framework/log"
+)
+
+// VerifSetResolver replaces the resolver of a module created by
+// RegisterStatelessCheck (add-only export for /verif, extension X14).
+// It reports whether m is such a module.
+func VerifSetResolver(m interface{}, r dns.Resolver, out log.Output) bool {
+	c, ok := m.(*statelessCheck)
+	if !ok {
+		return false
+	}
+	c.resolver = r
+	if out != nil {
+		c.logger.Out = out
+	}
+	return true
+}
